@@ -42,6 +42,7 @@ def setup(ctx):
     ctx.require("monitor", "l1_stalls", 150)
     ctx.require("monitor", "l2_handshake_stalls", 20)
     ctx.require("monitor", "l2_request_stalls", 10)
+    ctx.require("monitor", "l2_close_notify_stalls", 20)
     ctx.require("monitor", "complete_slow", 10)
     ctx.require("monitor", "l3_cases", 4)
 
@@ -243,7 +244,7 @@ def run_l1_slow(ctx):
 # --------------------------------------------------------------------------- L2
 
 
-def l2_case(ctx, backend, tls_max, client_cert, stall_flight, stall_off, request=None, req_cipher_off=None):
+def l2_case(ctx, backend, tls_max, client_cert, stall_flight, stall_off, request=None, req_cipher_off=None, close_notify=None):
     """Drive a handshake, going silent at (stall_flight, stall_off).  stall_flight None = complete it.
     Then optionally send the first req_cipher_off ciphertext bytes of the request record."""
     from nauyaca.server.protocol import GeminiServerProtocol
@@ -294,6 +295,23 @@ def l2_case(ctx, backend, tls_max, client_cert, stall_flight, stall_off, request
             sent_req = total if req_cipher_off is None else min(req_cipher_off, total)
             if sent_req:
                 bench.flush(upto=sent_req)
+            if close_notify is not None:
+                # the client shuts its side of the TLS session down (close_notify) but leaves TCP open and goes silent
+                if close_notify == "later":
+                    loop.run_until(3.0)
+                try:
+                    bench.client.unwrap()
+                except (ssl.SSLWantReadError, ssl.SSLError):
+                    pass
+                bench.flush()
+        elif not stalled and close_notify is not None and done:
+            if close_notify == "later":
+                loop.run_until(3.0)
+            try:
+                bench.client.unwrap()
+            except (ssl.SSLWantReadError, ssl.SSLError):
+                pass
+            bench.flush()
         end = loop.run_until(HORIZON)
         bench.drain()
         return {
@@ -418,6 +436,30 @@ def run_l2(ctx):
                         continue
                     ctx.count("monitor", "l2_request_stalls")
                     judge_l2(ctx, obs, backend, tls_max, client_cert, "partial-line", "line", len(part), T, expect_40=True)
+                # the same partial requests (and none at all) followed by a TLS close_notify, TCP left open, then silence:
+                # the peer has said it will send no more, so how the connection ends (40 or plain close) is open - that
+                # it ends is not
+                for part in (None, b"g", b"gemini://example.org/x", b"titan://example.org/u;size=10;mime=text/plain\r\nabc"):
+                    for when in ("at-once", "later"):
+                        k += 1
+                        if not ctx.mine(k):
+                            continue
+                        obs = l2_case(ctx, backend, tls_max, client_cert, None, None, request=part, close_notify=when)
+                        if "error" in obs:
+                            ctx.undecided("L2:" + obs["error"])
+                            continue
+                        ctx.count("monitor", "l2_close_notify_stalls")
+                        wit = {"level": "L2", "backend": backend, "tls": tls_max, "client_cert": client_cert, "phase": "close-notify-then-silence", "sent": part, "close_notify": when,
+                               "observed": {kk: obs[kk] for kk in ("tcp_closing", "tcp_close_time", "end", "plain", "handler", "loop_exceptions")}}
+                        if not obs["tcp_closing"]:
+                            ctx.violation(f"held-open:phase=close-notify:backend={backend}", "peer sent close_notify after an incomplete request and went silent: loop became quiescent with its TCP transport still open", wit)
+                        elif obs["tcp_close_time"] > T + 30.0 + 60.0:
+                            ctx.violation(f"late-close:phase=close-notify:backend={backend}", f"TCP closed only at {obs['tcp_close_time']}", wit)
+                        elif obs["handler"]:
+                            ctx.violation(f"handler-on-incomplete:phase=close-notify:backend={backend}", "handler ran on an incomplete request", wit)
+                        else:
+                            ctx.count("outcome", f"L2:{backend}:close-notify-closed@{obs['tcp_close_time']}")
+                        ctx.case(("L2", backend, tls_max, client_cert, "close-notify", part is None, when, obs["tcp_closing"], obs["plain"][:2]), True, sample=wit)
 
 
 def judge_l2(ctx, obs, backend, tls_max, client_cert, phase, f, o, T, expect_40):
